@@ -139,6 +139,16 @@ def run_exhaustive(ctx, sau, spec):
 def gen_random(rng):
     n = int(rng.integers(1, 41))
     style = int(rng.integers(0, 6))
+    if rng.integers(0, 400) == 0:
+        # elements spanning more binades than a float has mantissa bits, queries next to the midpoint of two such elements:
+        # the two distances differ by less than the rounding of their larger one
+        e = int(rng.integers(50, 60))
+        lo_v = -float(rng.choice([0.25, 0.5, 1.0, 3.0]))
+        x = np.array([lo_v - 5.0, lo_v, 2.0 ** e, 2.0 ** (e + 3)])
+        mid = 2.0 ** (e - 1)
+        qs = np.sort(np.array([mid, np.nextafter(mid, np.inf), np.nextafter(mid, -np.inf), mid + lo_v / 2, 2.0 ** (e + 1)])
+                     [rng.permutation(5)[:int(rng.integers(1, 6))]])
+        return x, qs
     if rng.integers(0, 1500) == 0:
         # thousands of samples against a hundred or more queries (len(x) * len(lookup) above 2**20): the sizes at which
         # the search is used by integral matching on real series
